@@ -141,7 +141,21 @@ def run_guarded(mod, case, ctx, timeout_s):
     except Exception:
         # an exception escaping the check's own code: the monitor could not decide this case
         signal.setitimer(signal.ITIMER_REAL, 0)
-        ctx.inconclusive_note("harness-exception in run_case: " + traceback.format_exc()[-1500:])
+        etype, evalue, tb = sys.exc_info()
+        frames = traceback.extract_tb(tb)
+        inner = frames[-1] if frames else None
+        if inner is not None and os.sep + "vc2_conformance" + os.sep in inner.filename:
+            # the real code raised something the check did not anticipate on an input the
+            # harness built as valid: that is an observation about the code, not about the harness
+            where = inner.filename.split("vc2_conformance" + os.sep)[-1] + ":" + inner.name
+            ctx.violation(
+                "unexpected-exception:%s:%s" % (where, etype.__name__),
+                "repository code raised %s: %s (innermost frame %s:%d) while the check was executing a case"
+                % (etype.__name__, evalue, where, inner.lineno),
+                detail=traceback.format_exc()[-2500:],
+            )
+        else:
+            ctx.inconclusive_note("harness-exception in run_case: " + traceback.format_exc()[-1500:])
         return False
     finally:
         signal.setitimer(signal.ITIMER_REAL, 0)
